@@ -294,3 +294,20 @@ pub async fn run_session_inline(
         .verif_run_session_inline(handle, input, continuity)
         .await;
 }
+
+static EVENT_CHANNEL_CAPACITY_OVERRIDE: std::sync::atomic::AtomicUsize =
+    std::sync::atomic::AtomicUsize::new(0);
+
+/// Capacity of the event broadcast channels created from now on (sessions, tasks, the continuity
+/// store); 0 = the compiled-in `EVENT_CHANNEL_CAPACITY`. Lets a harness make a receiver lag with a
+/// handful of frames (property C06: the handlers' refill after `RecvError::Lagged`).
+pub fn set_event_channel_capacity(capacity: usize) {
+    EVENT_CHANNEL_CAPACITY_OVERRIDE.store(capacity, std::sync::atomic::Ordering::SeqCst);
+}
+
+pub(crate) fn event_channel_capacity_override() -> Option<usize> {
+    match EVENT_CHANNEL_CAPACITY_OVERRIDE.load(std::sync::atomic::Ordering::SeqCst) {
+        0 => None,
+        capacity => Some(capacity),
+    }
+}
